@@ -33,9 +33,13 @@ type Case struct {
 	Starters int    `json:"starters"`
 	Closers  int    `json:"closers"`
 	Waiters  int    `json:"waiters"`
-	Hook     string `json:"hook"` // "" | launched | checked
-	Yields   []int  `json:"yields"`
-	Procs    int    `json:"gomaxprocs"`
+	// EarlyWaiters call Wait in a loop from the moment the Start callers
+	// are released: a Wait that overlaps Start either reports "not started"
+	// or waits for the whole lifecycle like any other
+	EarlyWaiters int    `json:"early_waiters,omitempty"`
+	Hook         string `json:"hook"` // "" | launched | checked
+	Yields       []int  `json:"yields"`
+	Procs        int    `json:"gomaxprocs"`
 }
 
 type event struct {
@@ -224,6 +228,30 @@ func runCase(c *Case) (string, string) {
 			}
 		}(i)
 	}
+	// declared here, used by the early waiters and (below) by the others
+	bad := make(chan [2]string, c.Waiters+c.EarlyWaiters+2)
+	var checkWait func(who string, err error)
+	checkWaitReady := make(chan struct{})
+	var ewg sync.WaitGroup
+	for i := 0; i < c.EarlyWaiters; i++ {
+		ewg.Add(1)
+		go func(i int) {
+			defer ewg.Done()
+			<-barrier
+			for k := 0; ; k++ {
+				err := s.Wait()
+				if errors.Is(err, srv.ErrServiceNotStarted) {
+					if k%3 == i%3 {
+						runtime.Gosched()
+					}
+					continue
+				}
+				<-checkWaitReady
+				checkWait(fmt.Sprintf("early waiter %d (call %d, overlapping Start)", i, k), err)
+				return
+			}
+		}(i)
+	}
 	close(barrier)
 	select {
 	case <-started:
@@ -231,8 +259,7 @@ func runCase(c *Case) (string, string) {
 		return "start", fmt.Sprintf("no Start call returned nil within %v", limit)
 	}
 	// waiters begin after a nil Start
-	bad := make(chan [2]string, c.Waiters+2)
-	checkWait := func(who string, err error) {
+	checkWait = func(who string, err error) {
 		for _, p := range []string{"run", "shutdown", "cleanup"} {
 			if !w.done[p].Load() {
 				bad <- [2]string{"wait-early", fmt.Sprintf("%s: Wait returned before %s had returned", who, p)}
@@ -259,6 +286,7 @@ func runCase(c *Case) (string, string) {
 			bad <- [2]string{"spurious-error", fmt.Sprintf("%s: nothing failed but Wait returned %v", who, err)}
 		}
 	}
+	close(checkWaitReady)
 	var wwg sync.WaitGroup
 	for i := 0; i < c.Waiters; i++ {
 		wwg.Add(1)
@@ -294,7 +322,7 @@ func runCase(c *Case) (string, string) {
 		}
 	}
 	allDone := make(chan struct{})
-	go func() { swg.Wait(); wwg.Wait(); checkWait("final Wait", s.Wait()); close(allDone) }()
+	go func() { swg.Wait(); wwg.Wait(); ewg.Wait(); checkWait("final Wait", s.Wait()); close(allDone) }()
 	select {
 	case <-allDone:
 	case <-time.After(2 * limit):
@@ -363,16 +391,17 @@ func runCase(c *Case) (string, string) {
 func genCase(t *rapid.T) *Case {
 	oc := rapid.SampledFrom([]string{"absent", "ok", "ok", "error", "panic"})
 	c := &Case{
-		Run:      rapid.SampledFrom([]string{"ok", "ok", "error", "panic"}).Draw(t, "run"),
-		Shutdown: oc.Draw(t, "shutdown"),
-		Cleanup:  oc.Draw(t, "cleanup"),
-		Handler:  rapid.SampledFrom([]string{"absent", "ok", "ok", "panic"}).Draw(t, "handler"),
-		Ending:   rapid.SampledFrom([]string{"self", "self-gated", "close", "cancel", "cancel-before-start"}).Draw(t, "ending"),
-		Starters: rapid.IntRange(1, 6).Draw(t, "starters"),
-		Closers:  rapid.IntRange(0, 3).Draw(t, "closers"),
-		Waiters:  rapid.IntRange(0, 3).Draw(t, "waiters"),
-		Yields:   rapid.SliceOfN(rapid.IntRange(0, 4), 1, 6).Draw(t, "yields"),
-		Procs:    rapid.SampledFrom([]int{1, 2, 4, 16}).Draw(t, "gomaxprocs"),
+		Run:          rapid.SampledFrom([]string{"ok", "ok", "error", "panic"}).Draw(t, "run"),
+		Shutdown:     oc.Draw(t, "shutdown"),
+		Cleanup:      oc.Draw(t, "cleanup"),
+		Handler:      rapid.SampledFrom([]string{"absent", "ok", "ok", "panic"}).Draw(t, "handler"),
+		Ending:       rapid.SampledFrom([]string{"self", "self-gated", "close", "cancel", "cancel-before-start"}).Draw(t, "ending"),
+		Starters:     rapid.IntRange(1, 6).Draw(t, "starters"),
+		Closers:      rapid.IntRange(0, 3).Draw(t, "closers"),
+		Waiters:      rapid.IntRange(0, 3).Draw(t, "waiters"),
+		EarlyWaiters: rapid.SampledFrom([]int{0, 0, 1, 2, 3}).Draw(t, "earlyWaiters"),
+		Yields:       rapid.SliceOfN(rapid.IntRange(0, 4), 1, 6).Draw(t, "yields"),
+		Procs:        rapid.SampledFrom([]int{1, 2, 4, 16}).Draw(t, "gomaxprocs"),
 	}
 	return c
 }
